@@ -106,7 +106,7 @@ def run(ctx, res):
             w = f['witness']
             if Lark(w['grammar'], parser='earley', lexer=w['lexer'], ambiguity='forest').parse(w['text']).is_ambiguous:
                 res.known_hits.append(('F20', '%s: %r on %r has one derivation, root.is_ambiguous is True' % (f['what'], w['grammar'], w['text'])))
-    jobs, outs = forestlib.forest_stream(ctx, 20, {'c20'}, 1200, 20000, prio=True)
+    jobs, outs = forestlib.forest_stream(ctx, 20, {'c20'}, 3000, 25000, prio=True)
     for job, rec in problems(res, jobs, outs, 'building/walking the forest'):
         if 'gerr' in rec:
             res.count('grammar_error'); continue
@@ -165,7 +165,7 @@ def run(ctx, res):
     from common import pmap, tier_scale
     import random as _r
     rng2 = _r.Random(ctx['seed'] * 1000003 + 2020)
-    seeds = [rng2.randrange(1 << 30) for _ in range(tier_scale(ctx['tier'], 600, 12000) * (3 if ctx['deepen'] else 1))]
+    seeds = [rng2.randrange(1 << 30) for _ in range(tier_scale(ctx['tier'], 1500, 15000) * (3 if ctx['deepen'] else 1))]
     for seed, (st, rec) in zip(seeds, pmap(_tile_case, seeds, chunksize=8)):
         if st != 'ok':
             if st == 'exc':
